@@ -182,8 +182,12 @@ def run_groups(groups: list[tuple[str, list[Scenario], int, float]], seed: int =
     info = []
     nscen = 0
     total.bound_completed = 10 ** 6
+    only = [g for g in os.environ.get('KV_ONLY_GROUPS', '').split(',') if g]      # development aid: run some groups only / with scaled time caps
+    scale = float(os.environ.get('KV_CAP_SCALE', '1') or 1)
     for name, scs, bound, cap in groups:
-        st, vs, completed = explore_parallel(scs, bound, time_cap=cap, seed=seed)
+        if only and name not in only:
+            continue
+        st, vs, completed = explore_parallel(scs, bound, time_cap=cap * scale, seed=seed)
         total.merge(st)
         total.bound_completed = min(total.bound_completed, completed)
         for v in vs:
